@@ -12,6 +12,10 @@ Part D (real processes): spawn-ed workers share RawArray + mp.Lock + a DiskCache
 Part E: the ConcurrentCacher that CobaMultiprocessor itself builds for its workers, in front of a DiskCacher.
 Part C (real threads): the real class with real threading.Lock under sys.monitoring LINE-level yield injection; offline
 check of the recorded event log (M2, M3, M4).
+Part F (vf/c19_openml.py): the OpenML client of coba/environments/openml.py as a caller of the shared cache -- 1-4 threads reading
+data sets through ConcurrentCacher(DiskCacher | MemoryCacher) with a canned, fault-injecting HTTP source; requests per URL, complete
+table or exception, quiescence of the lock counters, a healthy read after every fault (HTTP answer cut part-way, body raising,
+abandoned reads, cache file cut at a byte).
 """
 import os, sys, time, random, threading, hashlib, tempfile, shutil, gzip, itertools
 from collections import Counter, defaultdict
@@ -28,7 +32,8 @@ PLAN  = {"quick":    {"shards": 16, "cases": 6400,   "timeout": 900,  "budget_s"
 REQUIRED = ["sched.histories", "sched.contended-index", "hook.lock.acquire", "hook.array.set", "hook.inner.write", "hook.inner.read",
             "hook.sleep", "oracle.M1.read-enter", "oracle.M1.write-enter", "oracle.M2.getter", "oracle.M3.complete-value",
             "oracle.M4.quiescence", "inject.getter-raise", "inject.body-raise", "disk.write-fault", "disk.cut-byte",
-            "threads.runs", "threads.M3.complete-value", "procs.runs", "procs.M2.getter", "procs.M3.complete-value", "procs.M4.quiescence", "cm.runs", "cm.M2.getter", "cm.M3.complete-value", "memory.getter-fault", "cachers.near-equal-keys"]
+            "threads.runs", "threads.M3.complete-value", "procs.runs", "procs.M2.getter", "procs.M3.complete-value", "procs.M4.quiescence", "cm.runs", "cm.M2.getter", "cm.M3.complete-value", "memory.getter-fault", "cachers.near-equal-keys",
+            "openml.runs", "openml.M2.requests", "openml.M3.complete-table", "openml.M4.quiescence", "openml.M6.healthy-read-after", "openml.reader-raised"]
 ASSUMPTIONS = ["a caller never nests get_set on two different keys whose 16-bit hashes collide; nested calls follow a global key order",
                "granularity of part A = lock acquisitions/releases, shared-counter reads/writes, inner-cache operations, retry sleeps",
                "a watchdog or step cap firing without an established deadlock state is inconclusive, not a violation"]
@@ -648,6 +653,8 @@ def run_shard(ctx):
     for sig, what in disk_faults(ctx, ctx.rng, 2 if ctx.tier == "quick" else 12): ctx.violation(sig, what, {"part": "disk"})
     for sig, what in memory_faults(ctx, ctx.rng, 2 if ctx.tier == "quick" else 12): ctx.violation(sig, what, {"part": "memory"})
     for sig, what in thread_stress(ctx, ctx.rng, 3 if ctx.tier == "quick" else 40): ctx.violation(sig, what, {"part": "threads"})
+    from vf import c19_openml
+    for sig, what in c19_openml.run(ctx, ctx.rng, 6 if ctx.tier == "quick" else 60): ctx.violation(sig, what, {"part": "openml-client"})
     if ctx.shard % 4 == 0 or ctx.tier == "thorough":
         for sig, what in process_stress(ctx, ctx.rng, 1 if ctx.tier == "quick" else 6): ctx.violation(sig, what, {"part": "processes"})
         for sig, what in coba_multiprocessor_cacher(ctx, ctx.rng, 2 if ctx.tier == "quick" else 8): ctx.violation(sig, what, {"part": "coba-multiprocessor"})
